@@ -20,8 +20,10 @@ structure Forest (α : Type) [DecidableEq α] where
   lvl : α → ℕ
   par : α → α
   kids : α → Finset α
+  /-- the finest level (15 for H3) -/
+  top : ℕ
   kids_iff : ∀ p c, c ∈ kids p ↔ (lvl c = lvl p + 1 ∧ par c = p)
-  kids_nonempty : ∀ p, (kids p).Nonempty
+  kids_nonempty : ∀ p, lvl p < top → (kids p).Nonempty
 
 variable (F : Forest α)
 
@@ -145,9 +147,9 @@ theorem compact_unique (hg : Graded F) {r : ℕ} {S : Set α} {p q x : α}
   · exact (main hq hp hqx hpx (by omega)).symm
 
 /-- **no complete set of siblings** in the compacted set -/
-theorem compact_no_full_family (hg : Graded F) {r : ℕ} {S : Set α} (q : α) (hq : F.lvl q < r)
+theorem compact_no_full_family (hg : Graded F) {r : ℕ} (hr : r ≤ F.top) {S : Set α} (q : α) (hq : F.lvl q < r)
     (hall : ∀ c ∈ F.kids q, c ∈ Compact F r S) : False := by
-  obtain ⟨c, hc⟩ := F.kids_nonempty q
+  obtain ⟨c, hc⟩ := F.kids_nonempty q (by omega)
   have hcc := hall c hc
   obtain ⟨hl, hpar⟩ := (F.kids_iff q c).mp hc
   -- q is full: every level-r node under q is under the kid that is its ancestor at level lvl q + 1
